@@ -5,7 +5,7 @@
 
 Outcome: dict(violation=None|{cls,msg,attrs,step}, digest, nontrivial, stats, extra)
 """
-from ..common import rng_for, digest, canon, tuplify
+from ..common import rng_for, digest, canon, tuplify, same
 from .model import Spec, path_str
 from .gen import swarm_config, gen_spec, HistoryGen
 from .execute import Exec, Violation, PROPAGATING
@@ -99,3 +99,127 @@ class C02(C01):
 
 
 DRIVERS = {"C01": C01, "C02": C02}
+
+
+# ---------------------------------------------------------------------------
+# C03: history independence (refinement against a freshly built manager)
+# ---------------------------------------------------------------------------
+from . import oracles as O
+from .world import World, run_traced
+
+
+class C03:
+    prop = "C03"
+    WEIGHTS = {"unreg": 14, "load": 6, "refresh": 3, "cleanup": 1, "verify": 1, "regf": 6, "unregf": 5,
+               "regk": 3, "unregk": 3, "setc": 3, "inpl": 6}
+
+    @staticmethod
+    def generate(ctx, run):
+        rc = rng_for(ctx.seed, "C03", run, "cfg")
+        cfg = swarm_config(rc, ctx.tier, weights_over=dict(C03.WEIGHTS))
+        if cfg["max_depth"] == 1 and rc.random() < 0.6:
+            cfg["max_depth"] = rc.choice([2, 3])      # nested targets are where the indices get interesting
+        spec = gen_spec(rng_for(ctx.seed, "C03", run, "spec"), cfg)
+        hg = HistoryGen(rng_for(ctx.seed, "C03", run, "ops"), cfg, spec)
+        return {"cfg": cfg, "spec": spec.to_json(), "ops": hg.history()}
+
+    @staticmethod
+    def execute(ctx, case):
+        prop = "C03"
+        xd = ctx.xd
+        spec = Spec.from_json(case["spec"])
+        cfg = case["cfg"]
+        ex = Exec(xd, spec, cfg["g_restricted"], cfg["salt"])
+        nontrivial = False
+        i = -1
+        removed = 0
+        try:
+            twin = O.build_fresh_twin(World, xd, spec, ex.model, ex.world, cfg["salt"])
+            for i, op in enumerate(case["ops"]):
+                st = ex.step(op)
+                if st is None:
+                    continue
+                where = "after op %d (%s)" % (i, op[0])
+                # ---- (c) the same call on the fresh twin of the state before ----------
+                tr2, exc2 = run_traced(lambda: twin.apply(op))
+                if st.exc is not None:
+                    raise Violation(prop + ".exception", "%s: %s raised %s: %s (fresh manager: %s)"
+                                    % (where, op[0], type(st.exc).__name__, st.exc,
+                                       "no exception" if exc2 is None else type(exc2).__name__),
+                                    exc=type(st.exc).__name__)
+                if exc2 is not None:
+                    raise Violation(prop + ".twin_exception", "%s: the fresh manager raised %s: %s where the subject did not"
+                                    % (where, type(exc2).__name__, exc2))
+                if op[0] in ("unreg", "unregf", "unregk", "load") or (op[0] in ("setv", "sete", "inpl") and st.pre_defined):
+                    removed += 1
+                if st.info.start is not None:
+                    _, e1, _ = ex.executed_tasks(st)
+                    _, e2, _ = ex.executed_tasks(st, world=twin, trace=tr2)
+                    if set(e1) != set(e2):
+                        d = sorted(set(e1) ^ set(e2), key=repr)[0]
+                        raise Violation(prop + ".triggered_set", "%s: task %s ran in %s only" %
+                                        (where, d, "the subject" if d in e1 else "the fresh manager"),
+                                        g_cyclic_trig=st.info.g_cyclic_trig)
+                    if st.info.g_cyclic_trig:
+                        ex.count("updates_gcyclic")
+                        try:
+                            ex.check_contents(st.info.values, where, st.info, prop)
+                        except Violation:
+                            # KF-1 territory (C01's known finding): the state has legitimately diverged
+                            # from the model, nothing further can be attributed to C03
+                            ex.count("stopped_on_kf1_divergence")
+                            break
+                    else:
+                        c1, c2 = ex.world.contents(), twin.contents()
+                        for loc in spec.leaves:
+                            if not same(c1[loc], c2[loc]):
+                                raise Violation(prop + ".follow_up", "%s: %s holds %r, in the fresh manager %r"
+                                                % (where, path_str(loc), c1[loc], c2[loc]))
+                        ex.check_contents(st.info.values, where, st.info, prop)
+                    if st.info.trig:
+                        ex.count("updates_with_tasks")
+                # ---- (a) index supports ----------------------------------------------
+                mgr = ex.world.mgr
+                if ex.model.order:
+                    nontrivial = nontrivial or removed > 0
+                real_decl = O.real_decl_strings(mgr)
+                exp_decl = O.expected_decl_strings(ex.model)
+                if real_decl != exp_decl:
+                    k = sorted(set(real_decl) ^ set(exp_decl)) or [k for k in real_decl if real_decl[k] != exp_decl[k]]
+                    raise Violation(prop + ".tasks", "%s: registered tasks differ from the surviving definitions at %s: real %s, expected %s"
+                                    % (where, k[0], real_decl.get(k[0]), exp_decl.get(k[0])))
+                sup = O.support(mgr)
+                d = O.diff_support(sup, O.support_from_tasks(mgr.tasks.values()))
+                if d:
+                    raise Violation(prop + ".index", "%s: index vs derivation from the registered tasks: %s" % (where, d))
+                # a fresh twin of the state after (it is also the twin 'before' of the next op)
+                if st.info.g_cyclic_trig:
+                    # contents may legitimately differ (KF-1): the twin is rebuilt from the subject's contents
+                    pass
+                twin = O.build_fresh_twin(World, xd, spec, ex.model, ex.world, cfg["salt"])
+                d = O.diff_support(sup, O.support(twin.mgr))
+                if d:
+                    raise Violation(prop + ".index_fresh", "%s: index vs fresh manager: %s" % (where, d))
+                # ---- (b) self-check and queries -----------------------------------------
+                tr, exc = run_traced(lambda: mgr.verify())
+                if exc is not None:
+                    raise Violation(prop + ".verify", "%s: verify() raised %s: %s" % (where, type(exc).__name__, exc))
+                q1 = O.queries(ex.world)
+                q2 = O.queries(twin)
+                if q1 != q2:
+                    for k in q1:
+                        for q in q1[k]:
+                            if q1[k][q] != q2[k][q]:
+                                raise Violation(prop + ".query", "%s: %s of %s: subject %s, fresh manager %s"
+                                                % (where, q, k, q1[k][q], q2[k][q]))
+                # ---- (d) clone() agrees ---------------------------------------------------
+                if i % 3 == 0:
+                    d = O.diff_support(O.support(mgr), O.support(mgr.clone()))
+                    if d:
+                        raise Violation(prop + ".clone", "%s: clone() differs: %s" % (where, d))
+        except Violation as v:
+            return _outcome(ex, v, i, nontrivial)
+        return _outcome(ex, None, None, nontrivial, None, digest(sorted(ex.stats.items())))
+
+
+DRIVERS["C03"] = C03
